@@ -28,16 +28,19 @@
         [C09_reference_tie_refuted] (finding C09-F1),
         [C09_cardinality_tie_refuted] (finding C09-F2).
 
-    Not covered: runs with an instance cap (the capped tracker keeps the first
-    [cap] instances per class in document order: genuinely order-dependent);
-    [remove_empty = true] (key sets then also depend on which shapes are
-    deleted; soundness is [C02_keys_remove_e2e]); invariance of the chosen
-    constraints under [no_tie] (DESIGN.md section 7, C09 (b)); blank-node
-    relabelling ([C09_rename_counts] is NOT stated: class keys can be blank
-    nodes, shape labels are computed from identifiers, and QUIRK Q3 of
-    Spec/Counts.v compares identifiers with the strings "IRI"/"BNode", so a
-    renaming commutes with the counts only under side conditions that need
-    their own development). *)
+    (c') [C09_keys_permutation_invariant_valid]: (c) with no hypothesis on the
+        outcomes under [valid_input]; [C09_keys_permutation_invariant_any]:
+        (c) for any setting of remove_empty_shapes (binary64, thresholds <= 1).
+    (e) blank-node relabelling: [C09_track_rename], [C09_rename_counts],
+        [C09_profile_rename_invariant], [C09_keys_rename_invariant] under the
+        side conditions [rename_dom] (identifiers marked, no blank-node class);
+        [C09_rename_bnode_class_refuted] shows the second one is needed.
+
+    Not covered: runs with an instance cap under permutation (the capped
+    tracker keeps the first [cap] instances per class in document order:
+    genuinely order-dependent); [remove_empty = true] for thresholds > 1;
+    invariance of the chosen constraints under [no_tie] (DESIGN.md section 7,
+    C09 (b)); relabelling of graphs with blank-node classes. *)
 From Coq Require Import List Ascii String ZArith NArith Bool Permutation.
 From Shexer Require Import Lib.PyStr Lib.Dict Lib.Bin64 Gen.Consts Spec.Rdf Model.Tracker Model.Profiler Model.Tokens
   Model.Freq Model.FreqInst Model.Shexing Model.Run Spec.Counts Proofs.DictLemmas Proofs.ProfileChar
